@@ -15,6 +15,7 @@ def run(ctx, rep):
     cg.rule_subpatterns(rep, crate)
     rep.rules['M-C11a']['text'] = 'substitution precedes compilation at every regex-bearing site (skip, regex) and inside Subpatterns::new (against the table built so far, before insert)'
     rep.rules['M-C11a']['floor'] = 3
+    cg.cg_controls(rep, ctx, [('M-C11c', cg.rule_subpatterns)])
     rep.trusted += ['rustc nightly MIR; encoding of format_args! templates on this nightly (decoder fails closed)', 'engines/mirfacts', 'regex-syntax group and flag semantics']
     from props import gen
     gen.rules_c11(ctx, rep)
